@@ -239,6 +239,42 @@ def drawn_oracle(case) -> Info:
     return Info(nontrivial=fed >= 8 * bound and len(block) > 1, classes=(f"{kind}:drawn",), sample={"reader": kind, "cfg": list(cfg), "prefix": prefix.hex(), "block": block.hex()[:80], "chunk": chunk, "fed": fed})
 
 
+# ---- an unfinished frame / readout followed by endless repetition of ONE octet value, for every value -------------------------------
+
+
+def fill_case(i, tier):
+    v, which = i % 256, i // 256
+    return ("fill", v, which)
+
+
+def fill_oracle(case) -> Info:
+    _k, v, which = case
+    total = 160 * 1024
+    chunk = 4096
+    if which < 2:
+        cfg = HDLC_CFGS[which]
+        reader = hdlc.HdlcFrameReader(use_octet_stuffing=cfg[0], use_abort_sequence=cfg[1])
+        prefix = bytes([FLAG]) + _FR[0][:12]  # complete header, frame not finished
+        kind = "hdlc"
+    else:
+        cfg = ()
+        reader = dlde.ModeDReader()
+        prefix = b"/ABC5noise\r\n1-0:1.8.0(1"
+        kind = "p1"
+    bound = bound_for(kind, chunk)
+    guarded(reader.read, prefix)
+    fed = 0
+    blk = bytes([v]) * chunk
+    while fed < total:
+        guarded(reader.read, blk, what=f"{type(reader).__name__}.read")
+        fed += chunk
+        if fed % (16 * chunk) == 0:
+            size = deep_size(reader)
+            if size > bound:
+                fail(f"{kind} reader {cfg} retains {size} bytes after an unfinished message followed by {fed} octets of {v:#04x} (bound {bound})", sig=f"{kind}-fill")
+    return Info(nontrivial=True, classes=(f"fill:{kind}",), sample={"reader": kind, "cfg": list(cfg), "fill_octet": v, "fed": fed})
+
+
 def case_at(i, tier):
     import os
 
@@ -251,7 +287,8 @@ def build() -> Check:
         pid="C19",
         level="exploration",
         rule=(
-            "drawn: Hypothesis draws a reader, configuration, a prefix token, a block of 1..6 tokens (flags, escapes, frame pieces / '/', '!', LF, "
+            "fill-octets: an unfinished frame (complete header) / an unfinished readout followed by 160 KiB of ONE octet value, for all 256 values x "
+            "{HDLC plain, HDLC stuffing, P1}. drawn: Hypothesis draws a reader, configuration, a prefix token, a block of 1..6 tokens (flags, escapes, frame pieces / '/', '!', LF, "
             "identification and data line pieces, random octets) repeated endlessly, and a chunk size 1..65536; 96-384 KiB per case. patterns: "
             "Endless-stream patterns generated lazily (HDLC: all flags; flag+escape; flag+short junk; flag,flag,5 junk octets; valid frames back "
             "to back; valid frames that are all different; aborted frames back to back; never-ending frame; escapes only; flag-free random; random; 7E/7D-dense random; header announcing 2047 then zeros; complete header announcing fewer octets than arrive, then flags only; valid frames with the segmentation bit set back to back - "
@@ -270,6 +307,7 @@ def build() -> Check:
         ],
         clauses=[
             HypClause("drawn", drawn_case_st, drawn_oracle, quick=400, thorough=8000, doc="Hypothesis-drawn prefix + endlessly repeated block of up to 6 tokens, drawn chunk size, 96-384 KiB per case"),
+            EnumClause("fill-octets", size=lambda tier: 256 * 3, case_at=fill_case, oracle=fill_oracle, doc="unfinished frame/readout + endless run of one octet value, all 256 values x {HDLC plain, HDLC stuffing, P1}"),
             EnumClause("patterns", size=lambda tier: len(_cases(tier)), case_at=case_at, oracle=oracle, doc="pattern x chunk size grid", exhaustive=False),
         ],
     )
